@@ -298,7 +298,7 @@ func benignNarrowing(w *World, x *ssa.Convert) string {
 func ruleBounds(c *Ctx, rule string, fns []*ssa.Function, floor int) {
 	w := c.W
 	a := w.absint()
-	c.Rule(rule, "bounds: for every x[i], x[lo:hi] and binary.(Put)UintN(b, …) in the functions in scope: 0 ≤ i < len(x) resp. 0 ≤ lo ≤ hi ≤ cap(x) (hi ≤ len(x) is used when it suffices) resp. len(b) ≥ N/8, proven from intervals and the must-facts at that instruction, through predicate summaries of small callees (stun.CheckSize, ChannelNumber.Valid, …) and relational post-conditions of module callees; an obligation that cannot be decided is a violation", floor)
+	c.Rule(rule, "bounds: for every x[i], x[lo:hi], make([]T, n, c) with non-constant n and binary.(Put)UintN(b, …) in the functions in scope: 0 ≤ i < len(x) resp. 0 ≤ lo ≤ hi ≤ cap(x) (hi ≤ len(x) is used when it suffices) resp. 0 ≤ n ≤ c resp. len(b) ≥ N/8, proven from intervals and the must-facts at that instruction, through predicate summaries of small callees (stun.CheckSize, ChannelNumber.Valid, …) and relational post-conditions of module callees; an obligation that cannot be decided is a violation", floor)
 	zero := Term{V: ssa.NewConst(constant.MakeInt64(0), types.Typ[types.Int])}
 	constTerm := func(k int64) Term { return Term{V: ssa.NewConst(constant.MakeInt64(k), types.Typ[types.Int])} }
 	for _, fn := range fns {
@@ -361,6 +361,39 @@ func ruleBounds(c *Ctx, rule string, fns []*ssa.Function, floor int) {
 					c.OK(rule, fname(fn), what, w.instrPos(in), "in range: "+w.key(x))
 				} else {
 					c.Bad(rule, fname(fn), what, w.instrPos(in), "slice expression not proven in range ("+w.key(x)+"): "+strings.Join(fails, "; "), w.factsDesc(in)...)
+				}
+			case *ssa.MakeSlice:
+				// make([]T, n, c) panics for n < 0 or n > c
+				lr, cr := a.rangeAt(x.Len, in, 3), a.rangeAt(x.Cap, in, 3)
+				if _, isK := constInt(x.Len); isK && lr.lo >= 0 && (x.Cap == x.Len || lr.hi <= cr.lo) {
+					return // constant size
+				}
+				// a size that is pure configuration (operator-supplied field, constant, API
+				// parameter) is not reachable from the network
+				cfgOnly := true
+				for lf := range w.flow().leaves(x.Len) {
+					if !strings.HasPrefix(lf, "cfg:") && !strings.HasPrefix(lf, "const:") && !strings.HasPrefix(lf, "param:") {
+						cfgOnly = false
+					}
+				}
+				if cfgOnly {
+					c.Triv(rule, fname(fn), "make", w.instrPos(in), "size is configuration only")
+					return
+				}
+				c.Anchor(rule, fname(fn))
+				var fails []string
+				if ok, r := a.nonNeg(termOf(x.Len), in); !ok {
+					fails = append(fails, fmt.Sprintf("the length may be negative (%s)", r))
+				}
+				if x.Cap != x.Len {
+					if ok, why := a.proveLE(termOf(x.Len), termOf(x.Cap), in); !ok {
+						fails = append(fails, "len ≤ cap: "+why)
+					}
+				}
+				if len(fails) == 0 {
+					c.OK(rule, fname(fn), "make", w.instrPos(in), "0 ≤ len ≤ cap")
+				} else {
+					c.Bad(rule, fname(fn), "make", w.instrPos(in), "make([]T, n) not proven to have 0 ≤ n ≤ cap (a negative or oversized length panics): "+strings.Join(fails, "; "), w.factsDesc(in)...)
 				}
 			case *ssa.IndexAddr, *ssa.Index:
 				var base, idx ssa.Value
